@@ -82,6 +82,33 @@ def run_jobs(jobs: list, scratch: Path, *, procs: int = NPROC, env: Optional[dic
         if of.exists():
             for line in open(of):
                 got.append(json.loads(line))
+        hard = [g for g in got if 'hard limit' in str(g.get('error', ''))]
+        if hard and module == 'lv.rigs.worker_main':
+            # one execution blocked the rig process beyond its hard limit (no watchdog of the rig could end it): it is
+            # judged as an execution that never ended, and the jobs behind it run in a fresh process
+            from lv import monitor
+            ids = [j['id'] for j in chunks[i]]
+            k = ids.index(hard[0]['tid'])
+            stuck = chunks[i][k]
+            synth = monitor.to_monitor(stuck['id'], stuck['cfg'], [
+                {'e': 'outcome', 'kind': 'hang', 'exc': 'RigHang', 'cause': '', 'keys': [], 'vals': []},
+                {'e': 'obs_cache', 'cached': [], 'vals': []}, {'e': 'obs_marks', 'insts': []}, {'e': 'obs_logs', 'delivered': []}],
+                ctxkeys=None)
+            synth['meta'] = {'skipped': 0, 'defaulted': 0, 'lines': 0, 'ints': 0, 'events': 1, 'hard_limit': True}
+            got = [g for g in got if g is not hard[0]] + [synth]
+            rest = chunks[i][k + 1:]
+            if rest:
+                got += run_jobs(rest, scratch, procs=1, env=env, module=module, timeout=max(60, deadline - time.time()))
+            # (results of expanded sweep jobs carry their own ids: only count plain jobs)
+            chunks[i] = [j for j in chunks[i] if not j.get('sweep')]
+            got_ids = {g['tid'] for g in got}
+            missing = [j['id'] for j in chunks[i] if j['id'] not in got_ids]
+            if missing:
+                raise tlc.TLCMachineryError(f'rig subprocess {i}: no result for {missing[:3]} after a hard-limit restart')
+            out += got
+            jf.unlink(missing_ok=True)
+            of.unlink(missing_ok=True)
+            continue
         if len(got) < len(chunks[i]):
             err = open(scratch / f'err_{i}.txt').read()[-3000:]
             raise tlc.TLCMachineryError(f'rig subprocess {i} produced {len(got)} of {len(chunks[i])} results '
